@@ -65,6 +65,7 @@ res["false_alarms"] = [q for q, v in res["checks"].items() if v["rc"] != 0]
 sh("git checkout -q -- . && git clean -fdq -e target")
 d = os.path.join(ROOT, "refactors", name); os.makedirs(d, exist_ok=True)
 shutil.copy(os.path.join(sd, "patch.diff"), d)
+shutil.copy(os.path.join(sd, "meta.json"), d)
 json.dump(res, open(os.path.join(d, "result.json"), "w"), indent=1)
 print(name, "applies" if res["applies"] else "DOES-NOT-APPLY", "tests-ok" if res.get("existing_tests_pass") else "TESTS-FAIL",
       " ".join(f"{q}:{v['rc']}" for q, v in res["checks"].items()), "FALSE-ALARMS:" + ",".join(res["false_alarms"]) if res["false_alarms"] else "clean")
